@@ -74,6 +74,59 @@ def same(a, b):
     return a.shape == b.shape and a.dtype == b.dtype and a.tobytes() == b.tobytes()
 
 
+def decoupled(c, what, sub, sources, results, detail):
+    """conversions MOVE data: overwriting the source afterwards must not change what was extracted, and overwriting the
+    extracted representation must not change the source (the round trip still has to hold after either buffer is reused)"""
+    c.ev(True)
+    ssn = [np.array(a, copy=True) for a in sources]
+    rsn = [np.array(a, copy=True) for a in results]
+    for a in sources:
+        if a.size:
+            a[...] = -77.5
+    ok = all(np.array_equal(r, k, equal_nan=True) for r, k in zip(results, rsn))
+    for a, k in zip(sources, ssn):
+        a[...] = k
+    for r in results:
+        if r.size:
+            r[...] = 55.25
+    ok2 = all(np.array_equal(a, k, equal_nan=True) for a, k in zip(sources, ssn))
+    for r, k in zip(results, rsn):
+        r[...] = k
+    if not ok:
+        c.fail(what + ' result changes when the source buffer is reused', sub, detail)
+    elif not ok2:
+        c.fail(what + ' source changes when the result is overwritten', sub, detail)
+
+
+def run_decoupled(c):
+    for (D, P) in DPS[1:3]:
+        for shape in [(3,), (2, 2)]:
+            x = vals(shape, 1)
+            V = vals(shape + (P, D - 1), 2)
+            u = AU.base_and_dirs2utpm(x, V)
+            decoupled(c, 'base_and_dirs2utpm', 'ndim=%d' % len(shape), [x, V], [u.data], {'D': D, 'P': P})
+            x2, V2 = AU.utpm2base_and_dirs(u)
+            decoupled(c, 'utpm2base_and_dirs', 'ndim=%d' % len(shape), [u.data], [x2, V2], {'D': D, 'P': P})
+        for N in (2, 3):
+            A = UTPM(sym(vals((D, P, N, N), 3)))
+            for UPLO in 'FLU':
+                v = algopy.symvec(A, UPLO)
+                decoupled(c, 'symvec', UPLO, [A.data], [v.data], {'N': N, 'D': D, 'P': P})
+            v = UTPM(vals((D, P, N * (N + 1) // 2), 5))
+            B = algopy.vecsym(v)
+            decoupled(c, 'vecsym', 'utpm', [v.data], [B.data], {'N': N, 'D': D, 'P': P})
+            An = sym(vals((N, N), 3))
+            vn = algopy.symvec(An)
+            decoupled(c, 'symvec', 'ndarray', [An], [vn], {'N': N})
+            decoupled(c, 'vecsym', 'ndarray', [vn], [algopy.vecsym(vn)], {'N': N})
+        els = [UTPM(vals((D, P, 2), k)) for k in range(3)]
+        y = UTPM.as_utpm(els)
+        decoupled(c, 'as_utpm', 'list', [e.data for e in els], [y.data], {'D': D, 'P': P})
+        z = UTPM(vals((D, P, 3), 4))
+        for sft in (-1, 0, 1):
+            decoupled(c, 'shift', 's=%d' % sft, [z.data], [z.shift(sft).data], {'D': D, 'P': P})
+
+
 def run_basedirs(c):
     for shape in SHAPES:
         for (D, P) in DPS:
@@ -163,6 +216,48 @@ def run_symvec(c):
                                 c.fail('symvec triangle', sub, {'N': N, 'D': D, 'P': P})
                     except Exception as e:
                         c.fail('symvec raises', sub, {'error': str(e)[:200], 'N': N})
+
+
+EXTREME = [1.7e308, -1.2e308, np.inf, -np.inf, -0.0, 5e-324, np.nan, 2.0 ** -1022]
+
+
+def run_symvec_extreme(c):
+    """"lose nothing": entries that do not survive arithmetic (x + x - x, 0.5 * (x + x), x * 1) - the largest finite numbers,
+    infinities, nan, negative zero, subnormals - must be MOVED bit for bit by vecsym and by symvec 'L' / 'U'"""
+    for N in range(1, 5):
+        n = N * (N + 1) // 2
+        for rot in range(len(EXTREME)):
+            for (D, P) in [(1, 1), (2, 2)]:
+                w = vals((D, P, n), 5)
+                flat = w.reshape(D * P, n)
+                for k in range(n):
+                    if (k + rot) % 2 == 0:
+                        flat[(k + rot) % (D * P), k] = EXTREME[(k + rot) % len(EXTREME)]
+                c.ev(True)
+                try:
+                    A = algopy.vecsym(UTPM(w.copy()))
+                    ref = np.zeros((D, P, N, N))
+                    k = 0
+                    for r in range(N):
+                        for cc in range(r, N):
+                            ref[:, :, r, cc] = w[:, :, k]
+                            ref[:, :, cc, r] = w[:, :, k]
+                            k += 1
+                    if not same(A.data, ref):
+                        c.fail('vecsym extreme values', 'utpm', {'N': N, 'D': D, 'P': P, 'rotation': rot})
+                        continue
+                    An = algopy.vecsym(w[0, 0].copy())
+                    if not same(An, ref[0, 0]):
+                        c.fail('vecsym extreme values', 'ndarray', {'N': N, 'rotation': rot})
+                    for UPLO in 'LU':
+                        w2 = algopy.symvec(UTPM(ref.copy()), UPLO)
+                        if not same(w2.data, w):
+                            c.fail('symvec extreme values', UPLO + '|utpm', {'N': N, 'D': D, 'P': P, 'rotation': rot})
+                        w3 = algopy.symvec(ref[0, 0].copy(), UPLO)
+                        if not same(w3, w[0, 0]):
+                            c.fail('symvec extreme values', UPLO + '|ndarray', {'N': N, 'rotation': rot})
+                except Exception as e:
+                    c.fail('symvec extreme raises', 'N=%d' % N, {'error': str(e)[:200]})
 
 
 def run_asutpm(c):
@@ -502,8 +597,10 @@ def run_unit(u):
     k = u['kind']
     if k == 'basedirs':
         run_basedirs(c)
+        run_decoupled(c)
     elif k == 'symvec':
         run_symvec(c)
+        run_symvec_extreme(c)
     elif k == 'asutpm':
         run_asutpm(c)
     elif k == 'blocks':
